@@ -29,6 +29,8 @@ pub enum MEdit {
     DeleteElement { coll: String, idx: usize },
     SetClimate { zone: String },
     SetMeta { key: String, value: Value },
+    /// the editor places (or moves) a window inside its wall
+    PlaceWindow { idx: usize, x: f32, y: f32 },
     /// pool variants (not faults): a value replaced, every name changed with ids kept,
     /// every id changed (consistently) with names kept
     SetValue { ptr: String, value: Value },
@@ -57,6 +59,7 @@ impl MEdit {
             MEdit::DeleteElement { .. } => "edit.delete_element",
             MEdit::SetClimate { .. } => "edit.set_climate",
             MEdit::SetMeta { .. } => "edit.set_meta",
+            MEdit::PlaceWindow { .. } => "edit.place_window",
             MEdit::SetValue { .. } | MEdit::ScaleNumber { .. } => "variant.value",
             MEdit::RenameAllNames => "variant.names",
             MEdit::RemapAllIds => "variant.ids",
@@ -234,6 +237,20 @@ pub fn apply(m: &mut Value, e: &MEdit, serial: u64) -> bool {
             let new = match to.as_str() {
                 "nil" => NIL.to_string(),
                 "fresh" => fresh_id(serial.wrapping_mul(7919).wrapping_add(13)),
+                t if t.starts_with("other:") => {
+                    // first id of the named collection (which must not be the link's own target)
+                    let name = &t[6..];
+                    if link_target_collection(ptr) == Some(name) {
+                        return false;
+                    }
+                    match closure::COLLECTIONS.iter().find(|c| c.0 == name) {
+                        Some((_, path)) => match closure::collection(m, path).first().and_then(|e| e.get("id")).and_then(|v| v.as_str()) {
+                            Some(id) => id.to_string(),
+                            None => return false,
+                        },
+                        None => return false,
+                    }
+                }
                 _ => match other_collection_id(m, ptr) {
                     Some(id) => id,
                     None => return false,
@@ -354,6 +371,21 @@ pub fn apply(m: &mut Value, e: &MEdit, serial: u64) -> bool {
                 true
             } else {
                 false
+            }
+        }
+        MEdit::PlaceWindow { idx, x, y } => {
+            match m.pointer_mut("/windows").and_then(|w| w.as_array_mut()) {
+                Some(a) if !a.is_empty() => {
+                    let i = idx % a.len();
+                    match a[i].get_mut("geometry").and_then(|g| g.as_object_mut()) {
+                        Some(g) => {
+                            g.insert("position".into(), json!([x, y]));
+                            true
+                        }
+                        None => false,
+                    }
+                }
+                _ => false,
             }
         }
         MEdit::SetValue { ptr, value } => match m.pointer_mut(ptr) {
@@ -507,13 +539,19 @@ pub fn editor_session(rng: &mut Rng) -> Vec<MEdit> {
                 bounds: rng.pick(&["EXTERIOR", "EXTERIOR", "GROUND", "INTERIOR", "ADIABATIC"]).to_string(),
                 tilt: *rng.pick(&[90.0f32, 90.0, 0.0, 180.0, 45.0]),
             }
-        } else if r < 76 {
+        } else if r < 70 {
             MEdit::AddWindow {
                 n: serial,
                 wall: opt(rng),
                 cons: opt(rng),
                 setback: *rng.pick(&[0.0f32, 0.0, 0.2, 0.5]),
-                with_position: rng.chance(5, 6),
+                with_position: rng.chance(3, 4),
+            }
+        } else if r < 76 {
+            MEdit::PlaceWindow {
+                idx: rng.below(3),
+                x: *rng.pick(&[0.0f32, 0.0, 0.5, 1.0]),
+                y: *rng.pick(&[0.0f32, 0.0, 0.5, 1.0]),
             }
         } else if r < 81 {
             MEdit::AddShade { n: serial }
@@ -580,6 +618,29 @@ pub fn minimal_sessions() -> Vec<(&'static str, Vec<MEdit>)> {
                 MEdit::AddWinCons { n: 5 },
                 win(6, Some(0), Some(0), 0.0),
                 MEdit::AddShade { n: 7 },
+            ],
+        ),
+        (
+            "window_added_then_placed",
+            vec![
+                MEdit::AddSpace { n: 1 },
+                MEdit::AddWallCons { n: 2 },
+                wall(3, Some(0), Some(0)),
+                MEdit::AddWinCons { n: 4 },
+                MEdit::AddWindow { n: 5, wall: Some(0), cons: Some(0), setback: 0.0, with_position: false },
+                MEdit::PlaceWindow { idx: 0, x: 0.0, y: 0.0 },
+                MEdit::PlaceWindow { idx: 0, x: 1.0, y: 1.0 },
+            ],
+        ),
+        (
+            "south_wall_window_added_then_placed",
+            vec![
+                MEdit::AddSpace { n: 1 },
+                MEdit::AddWallCons { n: 2 },
+                wall(4, Some(0), Some(0)),
+                MEdit::AddWinCons { n: 5 },
+                MEdit::AddWindow { n: 6, wall: Some(0), cons: Some(0), setback: 0.2, with_position: false },
+                MEdit::PlaceWindow { idx: 0, x: 0.0, y: 0.0 },
             ],
         ),
         ("window_without_wall", vec![MEdit::AddWinCons { n: 1 }, win(2, None, Some(0), 0.0)]),
